@@ -97,9 +97,7 @@ def readChunk (strict : Bool) (r : RState) : ChunkRes :=
           let seg := bytesToList inp body (body + n)
           match Dec.init seg with
           | none =>
-            let st : Status :=
-              if n < 5 then .unexpectedEOF
-              else .err "range decoder init"
+            let st : Status := initStatus seg
             .done { r with pos := body, seq := seq', h := h, props := some p } st
           | some rd =>
             let d0 : DecSt := { s := s, tbl := tbl, rd := rd, h := h }
